@@ -24,7 +24,8 @@ CONSTANTS U,         \* species universe (subset of 1..16, with gaps)
           UnsetSpace, LayoutSpace,  \* which unset patterns / layouts are enumerated
           ScalarRule,  \* "fill_is_unset" | "fill_is_default": what a never-written scalar cell reads as
           ListRule,    \* "own_file" | "first_file": which file's species list labels the cells read from a file
-          DfltSpace    \* which patterns of the default-bearing optional scalars are enumerated
+          DfltSpace,   \* which patterns of the default-bearing optional scalars are enumerated
+          ArrSpace     \* in which form per-point arrays are handed to the trajectory
 
 SFields == {"ts1", "ts2", "tsp", "tsm"}   \* TS, TS, TSP, TSM species-indexed fields
 Opt == {"t_f", "t_i", "t_s"}              \* optional T scalars: float, int, str (no declared default)
@@ -36,6 +37,11 @@ OptStates == {"set", "none", "untouched"}
 AllDflt == [{1, 2} -> OptStates]
 PlainDflt == {[t \in {1, 2} |-> "set"]}
 SomeDflt == PlainDflt \cup {[t \in {1, 2} |-> IF t = 1 THEN "none" ELSE "untouched"], [t \in {1, 2} |-> IF t = 1 THEN "untouched" ELSE "none"]}
+\* per-point arrays as the caller supplies them: a contiguous array of the field's type, a strided view
+\* (every second element of a larger buffer, e.g. a table column), an array of a smaller type that is cast.
+\* The file holds the VALUES in each case.
+ArrForms == {"contiguous", "strided", "cast"}
+OneArr == {"contiguous"}
 Selectors == {"same", "none", "shift", "firstonly"}
 \* "split": the fields ts2 and tsm form a second field set kept in an associated
 \* file written together with the base file (both files get the species list of
@@ -76,7 +82,7 @@ VARIABLES case, phase, file, back, err,
           sfile, sback    \* the per-trajectory scalar cells and what is read from them
 cvars == <<case, phase, file, back, err, sfile, sback>>
 
-CaseSpace == {c \in [s : [SFields -> SUBSET U], sel : Selectors, unset : UnsetSpace, layout : LayoutSpace, dflt : DfltSpace] :
+CaseSpace == {c \in [s : [SFields -> SUBSET U], sel : Selectors, unset : UnsetSpace, layout : LayoutSpace, dflt : DfltSpace, arr : ArrSpace] :
                  c.layout \in {"split", "split_assoc"} => c.sel # "shift"}    \* (a shifted second trajectory would not fit the two species lists)
 
 CInit == /\ case \in CaseSpace
